@@ -10,6 +10,9 @@
 -/
 import Torf.Properties.C03
 import Torf.Lemmas.PipelineC04Exc
+import Torf.Lemmas.PipelineC04Cancel
+import Torf.Lemmas.PipelineC04Result
+import Torf.Model.Generate
 namespace Torf.C04
 open Torf.Pipeline Torf.C03
 
@@ -155,5 +158,130 @@ example : Reachable cfgCbRead (after cfgCbRead (schedCb.take 13)) ∧
     terminal (after cfgCbRead schedCb) = true ∧ (after cfgCbRead schedCb).rexc = true ∧
     result? (after cfgCbRead schedCb) = some (.raised .read) :=
   ⟨reach_after (by decide), by decide, by decide, by decide, by decide, by decide⟩
+
+/-! ### 1. after a stop request the reader pushes at most one further piece -/
+
+/-- Once the stop flag is set (cancelling callback, raising callback, raising piece), the reader
+    pushes at most ONE further piece — the `put` it may be blocked in — however many pieces the
+    torrent has and whatever the schedule (`inFlight` = every piece pushed so far). -/
+theorem C04_cancel_bound_read {cfg : Cfg} {s s' : State} {ls : List Label} (h : Reachable cfg s)
+    (hstop : s.stop = true) (hrun : run cfg s ls = some s') :
+    (inFlight s').length ≤ (inFlight s).length + 1 := by
+  have := (stopped_run h hstop hrun).2
+  have := pushCredit_le_one s
+  omega
+
+/-- … exactly: the one further piece is only possible while the reader sits at a `put`
+    (`pushCredit` = 1), and it uses that credit up; the stop flag is never reset. -/
+theorem C04_cancel_bound_read_exact {cfg : Cfg} {s s' : State} {ls : List Label}
+    (h : Reachable cfg s) (hstop : s.stop = true) (hrun : run cfg s ls = some s') :
+    s'.stop = true ∧ (inFlight s').length + pushCredit s' ≤ (inFlight s).length + pushCredit s :=
+  stopped_run h hstop hrun
+
+/-- A reader that died of a read fault pushes no further piece at all. -/
+theorem C04_read_fault_no_more {cfg : Cfg} {s s' : State} {ls : List Label} (h : Reachable cfg s)
+    (hx : s.rexc = true) (hrun : run cfg s ls = some s') :
+    (inFlight s').length = (inFlight s).length :=
+  (left_run h ((InvG.of_reachable h).rexcPc hx) hrun).2
+
+/-! ### 2. the work done after a stop request is bounded by the queue capacity and N -/
+
+/-- After the stop request at most `cap + N + 1` further pieces are hashed (delivered to the hash
+    queue): those in the piece queue, those in the hands of the hashers, and the reader's pending
+    `put` — independent of the torrent's size.  Holds for every configuration. -/
+theorem C04_cancel_bound_hash {cfg : Cfg} {s s' : State} {ls : List Label} (h : Reachable cfg s)
+    (hstop : s.stop = true) (hrun : run cfg s ls = some s') :
+    hashedSoFar s' ≤ hashedSoFar s + cfg.cap + cfg.N + 1 := by
+  have h1 := C04_cancel_bound_read h hstop hrun
+  have hG := InvG.of_reachable h
+  have h2 := hG.held_le
+  have h3 := hG.pq_le
+  rw [inFlight_len s, inFlight_len s'] at h1
+  omega
+
+/-- five data pieces, one hasher, capacity 1; the callback cancels at the first report -/
+private def cfgCancel : Cfg :=
+  { N := 1, cap := 1, items := [.data, .data, .data, .data, .data], readFault := none, refuse := [],
+    raiseOnBad := false, cb := fun _ d => if d = 1 then .cancel else .pass }
+
+private def schedCancel : List Label :=
+  [lM, lM, lM, lM, lM, lM, lR, lR, lH, lH, lR, lH, lH, lR, lM] ++ [lH, lH, lR, lH, lH, lH] ++
+  [lR, lH, lH, lH, lJ, lJ, lJ, lJ, lM, lM, lM, lM, lM, lM, lM]
+
+/-- both bounds are attained: after 15 steps main has just cancelled (1 piece hashed, 3 pushed: one
+    in the queue, one in the hasher's hands, the reader blocked in `put`); 6 steps later
+    `1 + cap + N + 1 = 4` pieces are hashed and `3 + 1` pushed; piece 4 is never read -/
+example : Reachable cfgCancel (after cfgCancel (schedCancel.take 15)) ∧
+    (after cfgCancel (schedCancel.take 15)).stop = true ∧
+    run cfgCancel (after cfgCancel (schedCancel.take 15)) ((schedCancel.drop 15).take 6) =
+      some (after cfgCancel (schedCancel.take 21)) ∧
+    hashedSoFar (after cfgCancel (schedCancel.take 15)) = 1 ∧
+    hashedSoFar (after cfgCancel (schedCancel.take 21)) = 1 + cfgCancel.cap + cfgCancel.N + 1 ∧
+    (inFlight (after cfgCancel (schedCancel.take 15))).length = 3 ∧
+    (inFlight (after cfgCancel (schedCancel.take 21))).length = 3 + 1 :=
+  ⟨reach_after (by decide), by decide, by decide, by decide, by decide, by decide, by decide⟩
+
+/-- the hypotheses of `C04_read_fault_no_more` are satisfiable (state right after the fault) -/
+example : Reachable cfgRead (after cfgRead (schedRead.take 8)) ∧
+    (after cfgRead (schedRead.take 8)).rexc = true ∧
+    run cfgRead (after cfgRead (schedRead.take 8)) (schedRead.drop 8) = some (after cfgRead schedRead) ∧
+    (inFlight (after cfgRead schedRead)).length = 1 :=
+  ⟨reach_after (by decide), by decide, by decide, by decide⟩
+
+/-! ### 3. no partial result is ever taken for a complete one -/
+
+/-- A returned result (`Collector.collect` returned, nothing raised) contains only distinct,
+    genuinely hashed pieces, and if it has as many entries as there are hashable pieces, it is —
+    sorted, as `Collector.hashes` does — exactly the list of all of them.  Every configuration:
+    cancellation, read faults and refused starts included. -/
+theorem C04_no_partial {cfg : Cfg} {s : State} {c : List Nat} (h : Reachable cfg s)
+    (hr : result? s = some (.returned c)) :
+    c.Nodup ∧ (∀ k ∈ c, k < cfg.items.length ∧ isHashed cfg k = true) ∧
+    (c.length = (hashedItems cfg).length →
+      c.mergeSort (fun a b => decide (a ≤ b)) = hashedItems cfg) := by
+  have hc := (InvG.of_reachable h).ret c (terminal_of_result hr)
+  obtain ⟨h1, h2, _, h4⟩ := (InvA.of_reachable h).collected_sound
+  subst hc
+  exact ⟨h1, fun k hk => mem_hashedItems.1 (h2 k hk), h4⟩
+
+/-- The tail of `Torrent.generate` (`Generate.finish`: compare the number of digests with the
+    number of pieces) therefore stores a piece string only if it is the complete, correct one;
+    otherwise it reports cancellation (returns False); "too many hashes" is impossible.  (A piece
+    index stands for its digest here.) -/
+theorem C04_finish_sound {cfg : Cfg} {s : State} {c : List Nat} (h : Reachable cfg s)
+    (hr : result? s = some (.returned c)) :
+    Generate.finish (hashedItems cfg).length (c.mergeSort (fun a b => decide (a ≤ b))) =
+        .stored (hashedItems cfg) ∨
+    (Generate.finish (hashedItems cfg).length (c.mergeSort (fun a b => decide (a ≤ b))) = .cancelled ∧
+      c.length < (hashedItems cfg).length) := by
+  have hc := (InvG.of_reachable h).ret c (terminal_of_result hr)
+  obtain ⟨_, _, h3, h4⟩ := (InvA.of_reachable h).collected_sound
+  subst hc
+  unfold Generate.finish
+  rw [List.length_mergeSort]
+  by_cases hl : s.collected.length = (hashedItems cfg).length
+  · left; rw [if_pos hl, h4 hl]
+  · right
+    have hlt : s.collected.length < (hashedItems cfg).length := by omega
+    rw [if_neg hl, if_pos hlt]
+    exact ⟨rfl, hlt⟩
+
+/-- the cancelled run of `cfgCancel` returns four of the five pieces; `finish` reports cancellation -/
+example : Reachable cfgCancel (after cfgCancel schedCancel) ∧
+    result? (after cfgCancel schedCancel) = some (.returned [0, 1, 2, 3]) ∧
+    (hashedItems cfgCancel).length = 5 ∧
+    Generate.finish (hashedItems cfgCancel).length [0, 1, 2, 3] = .cancelled :=
+  ⟨reach_after (by decide), by decide, by decide, by decide⟩
+
+/-- one data piece; the callback cancels when it is reported — too late to leave anything out -/
+private def cfgLate : Cfg := { cfgCancel with items := [.data] }
+
+/-- … so the premise of the last clause of `C04_no_partial` is satisfiable even for a cancelled
+    run: the result has as many entries as there are pieces, and `finish` stores it -/
+example : Reachable cfgLate (after cfgLate schedRead) ∧ (after cfgLate schedRead).stop = true ∧
+    result? (after cfgLate schedRead) = some (.returned [0]) ∧
+    [0].length = (hashedItems cfgLate).length ∧
+    Generate.finish (hashedItems cfgLate).length [0] = .stored (hashedItems cfgLate) :=
+  ⟨reach_after (by decide), by decide, by decide, by decide, by decide⟩
 
 end Torf.C04
